@@ -636,6 +636,18 @@ def modified_targets(ex, stmts, extra=()):
             if isinstance(n, ast.Assign):
                 for t in n.targets:
                     target(t)
+            elif isinstance(n, ast.AugAssign) and isinstance(n.target, ast.Name):
+                # `a += x` on a NumPy array (or list) changes the object in place: whoever else holds it (the caller
+                # of a function that accumulates into its argument) sees the change; the binding stays
+                v = base_value(ast.copy_location(ast.Name(id=n.target.id, ctx=ast.Load()), n.target))
+                if isinstance(v, SymArr):
+                    while v.base is not None:
+                        v = v.base
+                    add(("arr", v))
+                elif isinstance(v, SymList):
+                    add(("lst", v))
+                else:
+                    target(n.target)
             elif isinstance(n, (ast.AugAssign, ast.AnnAssign)):
                 target(n.target)
             elif isinstance(n, ast.For):
